@@ -75,9 +75,26 @@ func (c *Ctx) evalAllEntries(h ai.Hooks, per func(e *world.Entry, post *ai.State
 	}
 	it.Hooks = h
 	defer func() { it.Hooks = ai.Hooks{} }()
+	// The decoder is evaluated for real in its own two entries; every other entry
+	// sees it as one opaque step (same coverage, a fraction of the work) unless a
+	// caller already installed its own intercepts.
+	_, preset := func() (ai.Intercept, bool) {
+		for fn := range c.W.CutFns {
+			ic, ok := it.Intercepts[fn]
+			return ic, ok
+		}
+		return nil, false
+	}()
 	for i := range c.W.Entries {
 		e := &c.W.Entries[i]
+		var restore func()
+		if !preset && !c.W.CutFns[e.Fn] {
+			restore = c.cutDecoder(nil)
+		}
 		post := c.W.RunEntry(e, nil)
+		if restore != nil {
+			restore()
+		}
 		if per != nil {
 			per(e, post)
 		}
